@@ -213,7 +213,8 @@ class FJSPFileGenerator(Generator):
         self.start_idx = 0
 
     def _generate(self, batch_size: List[int]) -> TensorDict:
-        batch_size = np.prod(batch_size)
+        # an empty batch size (the default of `load_data`) means all instances found in the files
+        batch_size = int(np.prod(batch_size)) if len(batch_size) > 0 else self.num_samples
         if batch_size > self.num_samples:
             log.warning(
                 f"Only found {self.num_samples} instance files, but specified dataset size is {batch_size}"
